@@ -51,6 +51,7 @@ counters!(
     error_path_conversions,
     error_offset_not_on_char_boundary,
     nodes_located,
+    located_accessor_reads,
     nodes_spanning_lines,
     locate_calls,
     locate_only_calls,
@@ -210,6 +211,80 @@ impl<U: Clone + std::fmt::Debug> Fold<U> for Collector<U> {
     kinded!(fold_comprehension, fold_comprehension, Comprehension, 11, false);
     kinded!(fold_arguments, fold_arguments, Arguments, 12, false);
     kinded!(fold_arg_with_default, fold_arg_with_default, ArgWithDefault, 13, false);
+}
+
+/// Reads every located node back through the `Located` accessors (`range`, `location`,
+/// `end_location`) and compares them with the range the fold stored in the node.
+struct LocatedChecker {
+    pending: Option<((u32, u32), Option<(u32, u32)>)>,
+    idx: usize,
+    checked: u64,
+    bad: Option<(usize, String)>,
+}
+
+impl LocatedChecker {
+    fn expect<T: ast::located::Located>(&mut self, node: &T) {
+        let r = node.range();
+        let t = sr_tuple(&r);
+        let loc = node.location();
+        let end = node.end_location();
+        if ((loc.row.get(), loc.column.get()), end.map(|e| (e.row.get(), e.column.get()))) != t && self.bad.is_none() {
+            self.bad = Some((self.idx, format!("location()/end_location() disagree with range() {:?}", t)));
+        }
+        self.pending = Some(t);
+    }
+}
+
+macro_rules! located_checked {
+    ($method:ident, $ty:ident) => {
+        fn $method(&mut self, node: ast::$ty<SourceRange>) -> Result<ast::$ty<SourceRange>, Self::Error> {
+            self.expect(&node);
+            fold::$method(self, node)
+        }
+    };
+}
+
+impl Fold<SourceRange> for LocatedChecker {
+    type TargetU = SourceRange;
+    type Error = std::convert::Infallible;
+    type UserContext = ();
+
+    fn will_map_user(&mut self, user: &SourceRange) -> Self::UserContext {
+        if let Some(want) = self.pending.take() {
+            self.checked += 1;
+            if sr_tuple(user) != want && self.bad.is_none() {
+                self.bad = Some((
+                    self.idx,
+                    format!("Located::range() = {:?} but the node stores {:?}", want, sr_tuple(user)),
+                ));
+            }
+        }
+        self.idx += 1;
+    }
+    fn map_user(&mut self, user: SourceRange, _context: ()) -> Result<SourceRange, Self::Error> {
+        Ok(user)
+    }
+
+    located_checked!(fold_stmt, Stmt);
+    located_checked!(fold_expr, Expr);
+    located_checked!(fold_pattern, Pattern);
+    located_checked!(fold_excepthandler, ExceptHandler);
+    located_checked!(fold_type_param, TypeParam);
+    located_checked!(fold_keyword, Keyword);
+    located_checked!(fold_arg, Arg);
+    located_checked!(fold_alias, Alias);
+    #[cfg(feature = "all-nodes-with-ranges")]
+    located_checked!(fold_mod, Mod);
+    #[cfg(feature = "all-nodes-with-ranges")]
+    located_checked!(fold_withitem, WithItem);
+    #[cfg(feature = "all-nodes-with-ranges")]
+    located_checked!(fold_match_case, MatchCase);
+    #[cfg(feature = "all-nodes-with-ranges")]
+    located_checked!(fold_comprehension, Comprehension);
+    #[cfg(feature = "all-nodes-with-ranges")]
+    located_checked!(fold_arguments, Arguments);
+    #[cfg(feature = "all-nodes-with-ranges")]
+    located_checked!(fold_arg_with_default, ArgWithDefault);
 }
 
 fn kind_label(names: &[String], packed: u32) -> String {
@@ -557,7 +632,7 @@ fn execute_inner(case: &Case, stats: &mut Stats, non_extent: &mut Option<(usize,
         }
     }
     if multiline || !src.is_ascii() {
-        stats.distinct.insert(dg.0);
+        stats.note_distinct(dg.0);
     }
     let steps = ranges.len() as u64;
 
@@ -624,6 +699,30 @@ fn execute_inner(case: &Case, stats: &mut Stats, non_extent: &mut Option<(usize,
             );
         }
     };
+
+    // ------------------------------------------------------- accessors of the located trees
+    for (which, t) in [("linear", &lin_tree), ("random", &rnd_tree)] {
+        let mut chk = LocatedChecker {
+            pending: None,
+            idx: 0,
+            checked: 0,
+            bad: None,
+        };
+        let _ = chk.fold(t.clone());
+        stats.add(C::located_accessor_reads as usize, chk.checked);
+        if let Some((i, what)) = chk.bad {
+            return done(
+                dg,
+                steps,
+                Some(Violation {
+                    class: "located-accessor".into(),
+                    site: kinds.get(i).map(|k| kind_label(&names, *k)).unwrap_or_else(|| "?".into()),
+                    step: i,
+                    detail: format!("{which} tree, node #{i}: {what}"),
+                }),
+            );
+        }
+    }
 
     // ------------------------------------------------------------ node-by-node comparison
     let mut cl = Collector::<SourceRange>::new();
